@@ -13,11 +13,19 @@ def escape_quotes_and_backslashes(s):
     return s.replace(u'\\', u'\\\\').replace(u"'", u"\\'")
 
 
+def _unescape_quotes_and_backslashes(s):
+    return re.sub(r"\\(.)", r"\1", s)
+
+
+# What the pattern grammar accepts as an unquoted object path step
+_UNQUOTED_PATH_STEP_RE = re.compile(r"^[a-zA-Z_][a-zA-Z0-9_]*\Z")
+
+
 def quote_if_needed(x):
     if isinstance(x, str):
-        if x.find("-") != -1:
+        if not _UNQUOTED_PATH_STEP_RE.match(x):
             if not x.startswith("'"):
-                return "'" + x + "'"
+                return "'" + escape_quotes_and_backslashes(x) + "'"
     return x
 
 
@@ -256,7 +264,11 @@ class _ObjectPathComponent(object):
     def create_ObjectPathComponent(component_name):
         # first case is to handle if component_name was quoted
         if isinstance(component_name, StringConstant):
-            return BasicObjectPathComponent(component_name.value, False)
+            name = component_name.value
+            if not component_name.needs_to_be_quoted:
+                # from a parse tree: the text is still in its escaped form
+                name = _unescape_quotes_and_backslashes(name)
+            return BasicObjectPathComponent(name, False)
         elif component_name.endswith("_ref"):
             return ReferenceObjectPathComponent(component_name)
         elif component_name.find("[") != -1:
